@@ -466,3 +466,314 @@ Proof.
       destruct Hbody as (sh' & cn & r & Eb & Hx & Rc' & Rb' & Gs & Hv).
       unfold sq_call. rewrite Efk. exists sh', cn, r. split; auto.
 Qed.
+
+(* ------------------------------------------------------------------ enter / exit / raise / env *)
+Lemma R_ext q g g' : g_cur g' = g_cur g -> g_depth g' = g_depth g -> g_snap g' = g_snap g -> R q g -> R q g'.
+Proof.
+  intros E1 E2 E3 [[A B] C]. split; [split; auto; intros s; rewrite E1; auto|].
+  rewrite E2. destruct (g_depth g); auto. destruct C as [C1 C2]. split; auto.
+  destruct C2 as (fc & pc & F & P & X). exists fc, pc, F, P. rewrite E3. exact X.
+Qed.
+
+Lemma nth_error_snoc_eq {A} (l : list A) x : nth_error (l ++ [x]) (length l) = Some x.
+Proof. rewrite nth_error_app2 by lia. rewrite Nat.sub_diag. reflexivity. Qed.
+Lemma nth_error_snoc_keep {A} (l : list A) x i y : nth_error l i = Some y -> nth_error (l ++ [x]) i = Some y.
+Proof. intros H. rewrite nth_error_app1; auto. apply nth_error_Some. congruence. Qed.
+
+Lemma activate_all_Rb sh g : g_snap g = no_snap -> Rb (activate_all sh) g.
+Proof.
+  intros Hs. unfold activate_all.
+  set (a1 := activate Front sh). set (a2 := activate Front a1). set (a3 := activate Front a2).
+  set (a4 := activate Front a3). set (a5 := activate Proc a4). set (a6 := activate Proc a5). set (a7 := activate Proc a6).
+  assert (H4 : nth_error (heap a4) (length (heap a3)) = Some (mkCache (clock a3) [])).
+  { unfold a4. rewrite activate_heap. apply nth_error_snoc_eq. }
+  assert (H7 : nth_error (heap a7) (length (heap a6)) = Some (mkCache (clock a6) [])).
+  { unfold a7. rewrite activate_heap. apply nth_error_snoc_eq. }
+  assert (H4' : nth_error (heap a7) (length (heap a3)) = Some (mkCache (clock a3) [])).
+  { unfold a7. rewrite activate_heap. apply nth_error_snoc_keep.
+    unfold a6. rewrite activate_heap. apply nth_error_snoc_keep.
+    unfold a5. rewrite activate_heap. apply nth_error_snoc_keep. exact H4. }
+  exists (length (heap a3)), (length (heap a6)), (mkCache (clock a3) []), (mkCache (clock a6) []).
+  split; [reflexivity|]. split; [reflexivity|]. split.
+  - unfold a6, a5, a4. rewrite !activate_heap, !app_length. simpl. lia.
+  - split; [exact H4'|]. split; [exact H7|]. rewrite Hs. repeat split; simpl; auto. intros fk v _ X; discriminate.
+Qed.
+
+Lemma activate_all_core sh : srcs (activate_all sh) = srcs sh /\ gone_flag (activate_all sh) = gone_flag sh.
+Proof. split; reflexivity. Qed.
+Lemma deactivate1_core l sh : srcs (deactivate1 l sh) = srcs sh /\ gone_flag (deactivate1 l sh) = gone_flag sh.
+Proof. unfold deactivate1, deactivate, py_delcache. destruct (ptr l sh); simpl; destruct l; split; reflexivity. Qed.
+Lemma deactivate_all_core sh : srcs (deactivate_all sh) = srcs sh /\ gone_flag (deactivate_all sh) = gone_flag sh.
+Proof.
+  unfold deactivate_all. repeat match goal with |- context [deactivate1 ?l ?x] =>
+    let H := fresh in destruct (deactivate1_core l x) as [H ?]; rewrite H; clear H end.
+  split; auto.
+  repeat match goal with |- context [gone_flag (deactivate1 ?l ?x)] =>
+    let H := fresh in destruct (deactivate1_core l x) as [_ H]; rewrite H; clear H end. reflexivity.
+Qed.
+
+Lemma Rb_core sh sh' g : same_core sh sh' -> Rb sh g -> Rb sh' g.
+Proof.
+  intros (E1 & E2 & E3 & _) (fc & pc & F & P & X). exists fc, pc, F, P. rewrite E1, E2, E3. exact X.
+Qed.
+
+Lemma exit_sim q g : R q g -> R (sq_exit q) (fst (spec_step g OExit)).
+Proof.
+  intros [[Hcur Hg] HR]. unfold sq_exit. simpl. destruct (g_depth g) as [|[|d]] eqn:Ed.
+  - destruct HR as (Hs & Hf & Hp). rewrite Hs. split; [split; auto|]. simpl. rewrite Ed. auto.
+  - destruct HR as (Hs & Hb). simpl in Hs. rewrite Hs.
+    destruct (deactivate_all_core (q_sh q)) as [X1 X2]. destruct (deactivate_all_ptrs (q_sh q)) as [Y1 Y2].
+    split.
+    + split; [intros s; exact (eq_trans (f_equal (fun f => f s) X1) (Hcur s))|exact (eq_trans X2 Hg)].
+    + simpl. split; [reflexivity|]. split; [exact Y1|exact Y2].
+  - destruct HR as (Hs & Hb). simpl in Hs. rewrite Hs. split; simpl; [split; auto|].
+    split; auto.
+Qed.
+
+Lemma unwind_sim : forall n q g, R q g -> g_depth g = n ->
+  exists g', R (sq_unwind n q) g' /\ g_depth g' = 0 /\ g_cur g' = g_cur g.
+Proof.
+  induction n as [|n IH]; intros q g HR Hd; simpl.
+  - exists g. auto.
+  - pose proof (exit_sim _ _ HR) as H. simpl in H. rewrite Hd in H.
+    destruct n as [|n'].
+    + destruct (IH _ _ H eq_refl) as (g' & X1 & X2 & X3). exists g'. auto.
+    + destruct (IH _ _ H eq_refl) as (g' & X1 & X2 & X3). exists g'. auto.
+Qed.
+
+Lemma R_len q g : R q g -> length (q_stk q) = g_depth g.
+Proof.
+  intros [_ H]. destruct (g_depth g) as [|d].
+  - destruct H as (-> & _). reflexivity.
+  - destruct H as (-> & _). rewrite app_length, repeat_length. simpl. lia.
+Qed.
+
+Lemma exit_res q : q_res (sq_exit q) = q_res q.
+Proof. unfold sq_exit. destruct (q_stk q) as [|[|] s]; reflexivity. Qed.
+Lemma unwind_res : forall n q, q_res (sq_unwind n q) = q_res q.
+Proof. induction n as [|n IH]; intros q; simpl; auto. rewrite IH. apply exit_res. Qed.
+
+Definition step_dom (g : gst) (o : op) : Prop :=
+  match o with OCall (CM m) => in_domain g m | _ => True end.
+
+Lemma step_sim q g o :
+  R q g -> step_dom g o ->
+  let (g', x) := spec_step g o in
+  R (sq_step q o) g' /\
+  match x with
+  | Some y => exists r, q_res (sq_step q o) = r :: q_res q /\ proj_res r = y
+  | None => q_res (sq_step q o) = q_res q
+  end.
+Proof.
+  intros HR Hdom. destruct o as [| | |c|e].
+  - (* enter *) simpl. split; [|unfold sq_enter; destruct (fptr (acquire0 (q_sh q))); reflexivity].
+    destruct HR as [[Hcur Hg] HR]. unfold sq_enter.
+    change (fptr (acquire0 (q_sh q))) with (fptr (q_sh q)).
+    destruct (g_depth g) as [|d] eqn:Ed.
+    + destruct HR as (Hs & Hf & Hp). rewrite Hf. split; simpl.
+      * split; auto.
+      * rewrite Hs. split; [reflexivity|]. apply activate_all_Rb. reflexivity.
+    + destruct HR as (Hs & Hb). pose proof Hb as (fc & _ & _ & _ & Hf & _). rewrite Hf. split; simpl.
+      * split; auto.
+      * rewrite Hs. split; [reflexivity|]. destruct Hb as (fc' & pc & F & P & X). exists fc', pc, F, P. exact X.
+  - (* exit *) pose proof (exit_sim _ _ HR) as H. simpl in *.
+    destruct (g_depth g) as [|[|d]]; (split; [exact H|]); unfold sq_exit; destruct (q_stk q) as [|[|] s]; reflexivity.
+  - (* raise *) simpl. split.
+    + destruct (unwind_sim _ _ _ HR (eq_sym (R_len _ _ HR))) as (g' & X1 & X2 & X3).
+      destruct X1 as [[A B] C]. rewrite X2 in C. split; [split; auto; intros s; rewrite A, X3; reflexivity|]. simpl. exact C.
+    + apply unwind_res.
+  - (* call *) destruct c as [m| |o].
+    + simpl in Hdom. pose proof (call_sim q g m HR Hdom) as H. simpl.
+      destruct (spec_call g m) as [g' x]. destruct H as (sh' & cn & r & Ec & Hx & HR' & Gs). rewrite Ec. simpl.
+      split; [|eexists; split; [reflexivity|exact Hx]].
+      eapply R_ext; [| | |exact HR']; reflexivity.
+    + simpl. split; [exact HR|]. eexists; split; reflexivity.
+    + simpl. split; [exact HR|]. eexists; split; [reflexivity|]. unfold proj_res. simpl. destruct o; reflexivity.
+  - (* env *) destruct HR as [[Hcur Hg] HR]. destruct e as [s st|]; simpl; (split; [|reflexivity]).
+    + split; [split; auto; intros x; simpl; rewrite Hcur; reflexivity|]. simpl.
+      destruct (g_depth g); auto.
+    + split; [split; auto|]. simpl.
+      destruct (g_depth g); auto.
+Qed.
+
+Lemma step_ok_mono g o : g_ok (fst (spec_step g o)) = true -> g_ok g = true /\ step_dom g o.
+Proof.
+  destruct o as [| | |c|e]; simpl; auto.
+  - destruct (g_depth g) as [|[|d]]; simpl; auto.
+  - destruct c as [m| |o]; simpl; auto. destruct (spec_call g m) as [g' r]. simpl.
+    intros H. apply andb_prop in H. destruct H as [H1 H2]. split; auto.
+    intros ->. simpl in H2. destruct (g_cur g Stat); try discriminate. eauto.
+  - destruct e as [s st|]; simpl; auto. intros H. apply andb_prop in H. destruct H as [H _].
+    apply andb_prop in H. destruct H; auto.
+Qed.
+
+Lemma go_ok_mono : forall h g acc gf rs, spec_go g h acc = (gf, rs) -> g_ok gf = true -> g_ok g = true.
+Proof.
+  induction h as [|o r IH]; intros g acc gf rs H Hok; simpl in H.
+  - inversion H; subst; auto.
+  - destruct (spec_step g o) as [g' x] eqn:E. apply IH in H; auto.
+    assert (g' = fst (spec_step g o)) by (rewrite E; reflexivity). subst g'. apply step_ok_mono in H. tauto.
+Qed.
+
+Lemma go_sim : forall h q g acc gf rs,
+  R q g -> map proj_res (rev (q_res q)) = rev acc ->
+  spec_go g h acc = (gf, rs) -> g_ok gf = true ->
+  map proj_res (rev (q_res (sq_run q h))) = rs.
+Proof.
+  induction h as [|o r IH]; intros q g acc gf rs HR Hacc H Hok; simpl in H.
+  - inversion H; subst. exact Hacc.
+  - destruct (spec_step g o) as [g' x] eqn:E. simpl.
+    pose proof (go_ok_mono _ _ _ _ _ H Hok) as Hok'.
+    assert (Hd : step_dom g o).
+    { assert (g' = fst (spec_step g o)) by (rewrite E; reflexivity). subst g'. apply step_ok_mono in Hok'. tauto. }
+    pose proof (step_sim q g o HR Hd) as Hs. rewrite E in Hs. destruct Hs as [HR' Hres].
+    eapply IH; [exact HR'| |exact H|exact Hok].
+    destruct x as [y|].
+    + destruct Hres as (r0 & Er & Ey). rewrite Er. simpl. rewrite map_app, Hacc. simpl. rewrite Ey. reflexivity.
+    + rewrite Hres. exact Hacc.
+Qed.
+
+(* Theorem 1 (with 2 and 3 folded in: the ghost machine forgets everything at the outermost exit
+   and ignores nested enters).  For every history inside the stated domain, every call of the
+   sequential reading answers what the property demands, and every successful call makes exactly
+   the reads the property allows: one per source and block, none once the block holds the source. *)
+Theorem block_first_read : forall f h rs,
+  spec_run f h = Some rs ->
+  map proj_res (rev (q_res (sq_run (sq_init f) h))) = rs.
+Proof.
+  intros f h rs H. unfold spec_run in H. destruct (spec_go (spec_init f) h []) as [gf rs'] eqn:E.
+  destruct (g_ok gf) eqn:Eok; [|discriminate]. inversion H; subst rs'.
+  eapply go_sim; [| |exact E|exact Eok].
+  - split; [split; auto|]. simpl. auto.
+  - reflexivity.
+Qed.
+
+Example block_first_read_example :
+  spec_run (fun _ => SAvail 1)
+    [OEnter; OCall (CM Mcpu_num); OEnv (ESet Stat (SAvail 2)); OCall (CM Mppid); OEnter; OCall (CM Mname); OExit;
+     OCall (CM Muids); OEnv (ESet Status SDenied); OCall (CM Mgids); ORaise; OCall (CM Mcpu_num); OCall (CM Mgids)]
+  = Some [(Val 1, Some [1;0;0;0]); (Val 1, Some [0;0;0;0]); (Val 1, Some [0;0;0;0]); (Val 1, Some [0;1;0;0]);
+          (Val 1, Some [0;0;0;0]); (Val 2, Some [1;0;0;0]); (Exc AccessDenied, None)].
+Proof. reflexivity. Qed.
+
+(* ------------------------------------------------------------------ as_dict *)
+Definition call_of (resolve : bytes -> callee) (n : bytes) : op := OCall (resolve n).
+Definition last_answer (q : sq) : outcome nat := match q_res q with (o, _) :: _ => o | [] => OutOfModel end.
+(* the same calls made one after the other, and what each answered *)
+Fixpoint run_calls (resolve : bytes -> callee) (q : sq) (ls : list bytes) : sq * list (outcome nat) :=
+  match ls with
+  | [] => (q, [])
+  | n :: r => let q1 := sq_step q (call_of resolve n) in
+              let (q2, a) := run_calls resolve q1 r in (q2, last_answer q1 :: a)
+  end.
+
+Lemma run_calls_run resolve : forall ls q, fst (run_calls resolve q ls) = sq_run q (map (call_of resolve) ls).
+Proof.
+  induction ls as [|n r IH]; intros q; [reflexivity|].
+  cbn [run_calls map]. unfold sq_run. cbn [fold_left].
+  change (fold_left sq_step (map (call_of resolve) r) (sq_step q (call_of resolve n)))
+    with (sq_run (sq_step q (call_of resolve n)) (map (call_of resolve) r)).
+  rewrite <- IH. destruct (run_calls resolve (sq_step q (call_of resolve n)) r); reflexivity.
+Qed.
+
+Lemma ad_loop_val resolve explicit : forall ls q acc q2 answers d,
+  run_calls resolve q ls = (q2, answers) -> spec_ad_collect ls answers = Val d ->
+  ad_loop resolve explicit ls q acc = (q2, Val (rev acc ++ d)).
+Proof.
+  induction ls as [|n r IH]; intros q acc q2 answers d Hr Hc.
+  - simpl in *. inversion Hr; subst. simpl in Hc. inversion Hc; subst. rewrite app_nil_r. reflexivity.
+  - cbn [run_calls] in Hr. cbn [ad_loop]. change (OCall (resolve n)) with (call_of resolve n).
+    remember (sq_step q (call_of resolve n)) as q1 eqn:Eq1. clear Eq1.
+    destruct (run_calls resolve q1 r) as [q3 a] eqn:E. inversion Hr; subst. clear Hr.
+    cbn [spec_ad_collect] in Hc. unfold last_answer in Hc.
+    destruct (q_res q1) as [|[o cn] rest] eqn:Eq; [simpl in Hc; discriminate|].
+    destruct o as [v|e|]; simpl in Hc; try discriminate.
+    + destruct (spec_ad_collect r a) as [d'|e'|] eqn:Ec; simpl in Hc; try discriminate. inversion Hc; subst.
+      rewrite (IH _ _ _ _ _ E Ec). simpl. rewrite <- app_assoc. reflexivity.
+    + destruct e; try discriminate;
+        (destruct (spec_ad_collect r a) as [d'|e'|] eqn:Ec; simpl in Hc; try discriminate; inversion Hc; subst;
+         rewrite (IH _ _ _ _ _ E Ec); simpl; rewrite <- app_assoc; reflexivity).
+Qed.
+
+Lemma ad_loop_nsp resolve explicit : forall ls q acc q2 answers,
+  run_calls resolve q ls = (q2, answers) -> spec_ad_collect ls answers = Exc NoSuchProcess ->
+  exists k, ad_loop resolve explicit ls q acc = (sq_run q (map (call_of resolve) (firstn k ls)), Exc NoSuchProcess).
+Proof.
+  induction ls as [|n r IH]; intros q acc q2 answers Hr Hc.
+  - simpl in *. inversion Hr; subst. simpl in Hc. discriminate.
+  - cbn [run_calls] in Hr. cbn [ad_loop]. change (OCall (resolve n)) with (call_of resolve n).
+    remember (sq_step q (call_of resolve n)) as q1 eqn:Eq1.
+    assert (Hq1 : forall k, sq_run q (map (call_of resolve) (firstn (S k) (n :: r))) = sq_run q1 (map (call_of resolve) (firstn k r)))
+      by (intros k0; subst q1; reflexivity).
+    clear Eq1.
+    destruct (run_calls resolve q1 r) as [q3 a] eqn:E. inversion Hr; subst. clear Hr.
+    cbn [spec_ad_collect] in Hc. unfold last_answer in Hc.
+    destruct (q_res q1) as [|[o cn] rest] eqn:Eq; [simpl in Hc; discriminate|].
+    destruct o as [v|e|]; simpl in Hc; try discriminate.
+    + destruct (spec_ad_collect r a) as [d'|e'|] eqn:Ec; simpl in Hc; try discriminate. inversion Hc; subst.
+      destruct (IH _ ((n, AVal v) :: acc) _ _ E Ec) as (k & Hk). exists (S k). rewrite Hq1. exact Hk.
+    + destruct e; try discriminate.
+      * exists 1. rewrite Hq1. reflexivity.
+      * destruct (spec_ad_collect r a) as [d'|e'|] eqn:Ec; simpl in Hc; try discriminate. inversion Hc; subst.
+        destruct (IH _ ((n, ADefault) :: acc) _ _ E Ec) as (k & Hk). exists (S k). rewrite Hq1. exact Hk.
+      * destruct (spec_ad_collect r a) as [d'|e'|] eqn:Ec; simpl in Hc; try discriminate. inversion Hc; subst.
+        destruct (IH _ ((n, ADefault) :: acc) _ _ E Ec) as (k & Hk). exists (S k). rewrite Hq1. exact Hk.
+Qed.
+
+Lemma collect_keys : forall ls answers d, spec_ad_collect ls answers = Val d -> map fst d = ls.
+Proof.
+  induction ls as [|n r IH]; intros answers d H; simpl in H.
+  - inversion H; reflexivity.
+  - destruct answers as [|a ar]; [discriminate|]. destruct a as [v|e|]; try discriminate.
+    + destruct (spec_ad_collect r ar) as [d'|e'|] eqn:Ec; simpl in H; try discriminate. inversion H; subst.
+      simpl. f_equal. eapply IH; eauto.
+    + destruct e; try discriminate;
+        (destruct (spec_ad_collect r ar) as [d'|e'|] eqn:Ec; simpl in H; try discriminate; inversion H; subst;
+         simpl; f_equal; eapply IH; eauto).
+Qed.
+
+(* the names as_dict will query: the requested set, or every valid name for None / an empty collection *)
+Definition requested (valid : list bytes) (attrs : attrs_arg) : list bytes :=
+  match (match attrs with AColl ns => dedup ns [] | _ => [] end) with [] => valid | req => req end.
+Definition names_valid (valid : list bytes) (attrs : attrs_arg) : bool :=
+  negb (existsb (fun n => negb (mem_bytes n valid)) (match attrs with AColl ns => dedup ns [] | _ => [] end)).
+
+(* Theorem 4. *)
+Theorem as_dict_spec : forall valid resolve q,
+  (* a non-collection: TypeError, nothing touched *)
+  as_dict valid resolve ANotColl q = (q, Exc TypeError) /\
+  (* an unknown name: ValueError, nothing touched (no block entered, no source read) *)
+  (forall ns, names_valid valid (AColl ns) = false -> as_dict valid resolve (AColl ns) q = (q, Exc ValueError)) /\
+  (* otherwise: one oneshot block around the individual calls, then the exception policy *)
+  (forall attrs q2 answers,
+     attrs <> ANotColl -> names_valid valid attrs = true ->
+     run_calls resolve (sq_enter q) (requested valid attrs) = (q2, answers) ->
+     (forall d, spec_ad_collect (requested valid attrs) answers = Val d ->
+                as_dict valid resolve attrs q = (sq_exit q2, Val d) /\ map fst d = requested valid attrs) /\
+     (spec_ad_collect (requested valid attrs) answers = Exc NoSuchProcess ->
+      exists k, as_dict valid resolve attrs q =
+                (sq_exit (sq_run (sq_enter q) (map (call_of resolve) (firstn k (requested valid attrs)))), Exc NoSuchProcess))).
+Proof.
+  intros valid resolve q. split; [reflexivity|]. split.
+  - intros ns H. unfold names_valid in H. apply negb_false_iff in H. unfold as_dict. rewrite H. reflexivity.
+  - intros attrs q2 answers Hnc Hv Hr. unfold names_valid in Hv. apply negb_true_iff in Hv.
+    assert (Has : forall r0 qq, ad_loop resolve (match (match attrs with AColl ns => dedup ns [] | _ => [] end) with [] => false | _ => true end)
+                        (requested valid attrs) (sq_enter q) [] = (qq, r0) ->
+                  as_dict valid resolve attrs q = (sq_exit qq, r0)).
+    { intros r0 qq E. unfold as_dict. destruct attrs as [| |ns]; [|congruence|]; rewrite Hv.
+      - unfold requested in E. simpl in *. rewrite E. reflexivity.
+      - unfold requested in E. destruct (dedup ns []) eqn:Ed; simpl in *; rewrite E; reflexivity. }
+    split.
+    + intros d Hc. split; [|eapply collect_keys; eauto]. apply Has.
+      rewrite (ad_loop_val _ _ _ _ [] _ _ _ Hr Hc). reflexivity.
+    + intros Hc. destruct (ad_loop_nsp resolve
+        (match (match attrs with AColl ns => dedup ns [] | _ => [] end) with [] => false | _ => true end)
+        _ _ [] _ _ Hr Hc) as (k & Hk). exists k. apply Has. exact Hk.
+Qed.
+
+Example as_dict_example :
+  let p := [112%Z] in let u := [117%Z] in let x := [120%Z] in
+  let resolve := fun n : bytes => if bytes_eqb n p then CPid else if bytes_eqb n u then CM Muids else CStub (Exc ZombieProcess) in
+  snd (as_dict [p; u; x] resolve (AColl [u; x; u]) (sq_init (fun _ => SAvail 7)))
+  = Val [(u, AVal 7); (x, ADefault)].
+Proof. reflexivity. Qed.
